@@ -216,6 +216,9 @@ def validation(ck, P):
 def run(ck):
     P = prog("K1")
     ck.configs.add("K1")
+    # round 10: the duplicate-flush rule decides a status code
+    from . import c11 as _c11s
+    _c11s.duplicate_flush(ck, P)
     null_rule(ck, P, "K1")
     conversions(ck, P, "K1")
     roots = [f.path for f in exported(P, gz=False)]
